@@ -1,5 +1,6 @@
 """C12: check configuration (PROP) and MANIFEST texts (TEXT)."""
 PROP = dict(
+    tables=["C01"],
     n_quick=300, n_thorough=5000, audit=8, audit_maxlen=4000,
     rule="structured transactions and blocks over C01's feature lattice (with and without witnesses, witnesses only on inputs / only on outputs, script and witness "
          "lengths on both sides of every varint boundary incl. 0xffff/0x10000) serialised by the crate, plus the repository vectors; the seven accessors are compared with the "
